@@ -22,6 +22,7 @@ import (
 	"encoding/json"
 	"flag"
 	"fmt"
+	"io"
 	"math/rand"
 	"os"
 	"os/exec"
@@ -56,10 +57,13 @@ type job struct {
 	// inconclusive; results that did arrive are judged as usual.
 	Restrictive bool            `json:"restrictive"`
 	Policy      json.RawMessage `json:"policy"`
-	Flags       uint32          `json:"flags"`
-	NNP         bool            `json:"nnp"`
-	Probes      []probeJob      `json:"probes"`
-	Shm         string          `json:"shm"`
+	// Prior: the Policy value that is loaded held this other policy first and was compiled and dumped in that state; the
+	// caller then rewrote its exported fields to `Policy`. What is installed must be the policy the value holds at the load.
+	Prior  json.RawMessage `json:"prior,omitempty"`
+	Flags  uint32          `json:"flags"`
+	NNP    bool            `json:"nnp"`
+	Probes []probeJob      `json:"probes"`
+	Shm    string          `json:"shm"`
 }
 
 // shared page layout (uint32 words):
@@ -127,6 +131,16 @@ func child() {
 		fmt.Fprintln(os.Stderr, err)
 		os.Exit(3)
 	}
+	if len(j.Prior) > 0 {
+		now := pol
+		if pol, err = buildPolicy(j.Prior); err != nil {
+			fmt.Fprintln(os.Stderr, err)
+			os.Exit(3)
+		}
+		pol.Assemble()
+		pol.Dump(io.Discard)
+		pol.DefaultAction, pol.Syscalls = now.DefaultAction, now.Syscalls
+	}
 	ownPol, _ := buildPolicy(j.Policy)
 	var own []bpf.RawInstruction
 	if insts, err := ownPol.Assemble(); err == nil {
@@ -193,6 +207,7 @@ type summary struct {
 	// children with a restrictive default action that died before answering all probes (inconclusive, see job.Restrictive)
 	Inconclusive int           `json:"inconclusive_children"`
 	FailedLoads  int           `json:"failed_loads_not_judged"`
+	WithPrior    int           `json:"children_with_a_prior_policy"`
 	Samples      []interface{} `json:"samples"`
 }
 
@@ -538,6 +553,7 @@ func main() {
 	}
 	var works []work
 	flagsChoices := []uint32{0, 1, 2, 3}
+	var prevPJ json.RawMessage
 	for ci := range cases {
 		cs := &cases[ci]
 		c := &polcase.Conc{Arch: arch.X86_64, W: h.W, X32Bit: h.X32Bit, NSys: h.NSys, LE: true}
@@ -630,6 +646,11 @@ func main() {
 		}
 		nnp := rng.Intn(2) == 0
 		j := &job{Policy: pj, Flags: fl, NNP: nnp, Probes: plain, Restrictive: restrictive}
+		if prevPJ != nil && rng.Intn(2) == 0 {
+			j.Prior = prevPJ
+			sum.WithPrior++
+		}
+		prevPJ = pj
 		works = append(works, work{base, j, -1})
 		// one child per fatal probe (at most two per case), after a few plain probes
 		rng.Shuffle(len(fatals), func(i, j int) { fatals[i], fatals[j] = fatals[j], fatals[i] })
